@@ -9,6 +9,10 @@ use serde::{Serialize, de::DeserializeOwned};
 use serde_json::{Value as J, json};
 use std::collections::BTreeMap;
 use std::fmt::Debug;
+use std::sync::atomic::{AtomicBool, Ordering};
+
+/// set by main for `avmon-corpus c18`: run the typed single-object monitors instead of the C16/C17 ones
+pub static SINGLE_OBJECT_MODE: AtomicBool = AtomicBool::new(false);
 
 pub struct TypeReport {
     pub name: String,
@@ -89,6 +93,10 @@ where
                 Err(p) => rep.add(&format!("schema-reparse-panic site={}", p.site), json!({"json": text})),
             },
         }
+    }
+    if SINGLE_OBJECT_MODE.load(Ordering::Relaxed) {
+        so_checks::<T>(&mut rep, &schema, r, n);
+        return rep;
     }
     let reader = match GenericDatumReader::builder(&schema).build() {
         Ok(x) => x,
@@ -227,4 +235,119 @@ where
         }
     }
     rep
+}
+
+
+/// C18 through the typed API: `SpecificSingleObjectWriter<T>` built in each documented way (new, builder, builder with an explicitly
+/// configured schema) writes header = C3 01 + CRC-64-AVRO of the schema it encodes with; the message is read back by the generic reader
+/// of that schema and by the typed reader; a reader of another schema refuses it.
+fn so_checks<T>(rep: &mut TypeReport, schema: &Schema, r: &mut Rng, n: usize)
+where
+    T: Arb + Serialize + DeserializeOwned + AvroSchema + PartialEq + Debug,
+{
+    use apache_avro::rabin::Rabin;
+    use apache_avro::{GenericSingleObjectReader, SpecificSingleObjectReader, SpecificSingleObjectWriter};
+    let header_of = |s: &Schema| {
+        let mut h = vec![0xC3u8, 0x01];
+        h.extend_from_slice(&s.fingerprint::<Rabin>().bytes);
+        h
+    };
+    // the same record under a namespace: another schema (another fingerprint) that still fits T's serde shape
+    let moved: Option<Schema> = rep.schema_json.as_ref().and_then(|js| serde_json::from_str::<J>(js).ok()).and_then(|mut j| {
+        let o = j.as_object_mut()?;
+        if o.get("type")?.as_str()? != "record" || o.contains_key("namespace") || o.get("name")?.as_str()?.contains('.') {
+            return None;
+        }
+        o.insert("namespace".into(), json!("verif.moved"));
+        Schema::parse(&j).ok()
+    });
+    let mut writers: Vec<(&str, SpecificSingleObjectWriter<T>, Schema)> = Vec::new();
+    match guard(SpecificSingleObjectWriter::<T>::new) {
+        Ok(Ok(w)) => writers.push(("new", w, schema.clone())),
+        Ok(Err(e)) => rep.add(&format!("typed-writer-construction-error via=new kind={}", crate::err_kind(&e)), json!({})),
+        Err(p) => rep.add(&format!("typed-writer-construction-panic via=new site={}", p.site), json!({"msg": p.msg})),
+    }
+    match guard(|| SpecificSingleObjectWriter::<T>::builder().build()) {
+        Ok(w) => writers.push(("builder", w, schema.clone())),
+        Err(p) => rep.add(&format!("typed-writer-construction-panic via=builder site={}", p.site), json!({"msg": p.msg})),
+    }
+    match guard(|| SpecificSingleObjectWriter::<T>::builder().resolved(schema.clone()).map(|b| b.target_block_size(1).build())) {
+        Ok(Ok(w)) => writers.push(("builder+same-schema+blocks", w, schema.clone())),
+        Ok(Err(e)) => rep.add(&format!("typed-writer-construction-error via=builder+same-schema kind={}", crate::err_kind(&e)), json!({})),
+        Err(p) => rep.add(&format!("typed-writer-construction-panic via=builder+same-schema site={}", p.site), json!({"msg": p.msg})),
+    }
+    if let Some(m) = &moved {
+        match guard(|| SpecificSingleObjectWriter::<T>::builder().resolved(m.clone()).map(|b| b.build())) {
+            Ok(Ok(w)) => writers.push(("builder+other-schema", w, m.clone())),
+            Ok(Err(_)) => {}
+            Err(p) => rep.add(&format!("typed-writer-construction-panic via=builder+other-schema site={}", p.site), json!({"msg": p.msg})),
+        }
+    }
+    let typed_reader = guard(SpecificSingleObjectReader::<T>::new).ok().and_then(|x| x.ok());
+    for i in 0..n.min(12) {
+        let t = T::arb(r, 0);
+        rep.values += 1;
+        for (via, w, used) in &writers {
+            rep.checks += 1;
+            let mut msg = Vec::new();
+            let ctx = |msg: &Vec<u8>| json!({"via": via, "value": format!("{t:?}").chars().take(200).collect::<String>(), "message": hex(&msg[..msg.len().min(120)])});
+            let count = match guard(|| w.write_ref(&t, &mut msg)) {
+                Err(p) => {
+                    rep.add(&format!("typed-write-panic via={via} site={}", p.site), ctx(&msg));
+                    continue;
+                }
+                Ok(Err(e)) => {
+                    // values the schema cannot take are C16/C17 matter; only the moved schema may legitimately refuse
+                    if *via != "builder+other-schema" {
+                        rep.add(&format!("typed-write-error via={via} kind={}", crate::err_kind(&e)), ctx(&msg));
+                    }
+                    continue;
+                }
+                Ok(Ok(c)) => c,
+            };
+            if count != msg.len() {
+                rep.add(&format!("typed-write-count-differs via={via}"), json!({"returned": count, "emitted": msg.len()}));
+            }
+            if msg.len() < 10 || msg[..10] != header_of(used)[..] {
+                rep.add(&format!("typed-header-is-not-the-fingerprint-of-the-writers-schema via={via}"), ctx(&msg));
+            }
+            if i == 0 {
+                rep.samples.push(json!({"via": via, "schema_json": serde_json::to_string(used).unwrap_or_default(), "pcf": used.canonical_form(), "message": hex(&msg)}));
+            }
+            match guard(|| GenericSingleObjectReader::builder().schema(used.clone()).build().and_then(|rd| {
+                let mut cur = &msg[..];
+                let v = rd.read_deser::<T>(&mut cur)?;
+                Ok((v, cur.len()))
+            })) {
+                Ok(Ok((t2, left))) => {
+                    if t2 != t {
+                        rep.add(&format!("typed-message-reads-back-different via={via}"), ctx(&msg));
+                    }
+                    if left != 0 {
+                        rep.add(&format!("typed-message-not-consumed via={via}"), ctx(&msg));
+                    }
+                }
+                Ok(Err(e)) => rep.add(&format!("typed-message-rejected-by-reader-of-its-schema via={via} kind={}", crate::err_kind(&e)), ctx(&msg)),
+                Err(p) => rep.add(&format!("typed-read-panic via={via} site={}", p.site), ctx(&msg)),
+            }
+            if *via == "builder+other-schema" {
+                // a reader for T's own schema must refuse the message of the other schema
+                if let Ok(Ok(rd)) = guard(|| GenericSingleObjectReader::builder().schema(schema.clone()).build()) {
+                    if let Ok(Ok(_)) = guard(|| rd.read_value(&mut &msg[..])) {
+                        rep.add("foreign-typed-message-accepted", ctx(&msg));
+                    }
+                }
+            } else if let Some(tr) = &typed_reader {
+                match guard(|| tr.read(&mut &msg[..])) {
+                    Ok(Ok(t2)) => {
+                        if t2 != t {
+                            rep.add(&format!("typed-reader-reads-back-different via={via}"), ctx(&msg));
+                        }
+                    }
+                    Ok(Err(e)) => rep.add(&format!("typed-reader-rejects via={via} kind={}", crate::err_kind(&e)), ctx(&msg)),
+                    Err(p) => rep.add(&format!("typed-reader-panic via={via} site={}", p.site), ctx(&msg)),
+                }
+            }
+        }
+    }
 }
